@@ -300,7 +300,12 @@ func main() {
 	seed := flag.Uint64("seed", 1, "")
 	rounds := flag.Int("rounds", 4, "")
 	tk := flag.Bool("tickets", true, "")
+	mode := flag.String("mode", "rounds", "rounds | chain (connected instances, see chain.go)")
 	flag.Parse()
+	if *mode == "chain" {
+		chainMain(*seed, *rounds)
+		return
+	}
 	useTickets = *tk
 	res := result{GOMAXPROCS: runtime.GOMAXPROCS(0), Rounds: *rounds, Digests: map[string]string{}, Kinds: map[string]int{}}
 	r := prng.New(*seed, 14)
